@@ -104,6 +104,64 @@ def run(ctx, rep):
             errt = [x for v, x in tsw["targets"] if v == "1"] or [tsw["otherwise"]]
             okc = any(x in W.reachable_from(errt[0]) for x in rmv)
         rep.check("C20.a", "write_bytes/temp-removed-on-error", okc, where=W.loc(), what="the temporary file is removed when writing it failed")
+    if len(hs) == 1 and len(rs) == 1:
+        # the temporary name is a sibling whose LAST path component is <final file name> + suffix
+        hl = flow.base_local(W, op_place(W.term(hs[0])["args"][0]))
+        joins = [d for d in W.defs().get(hl, []) if d[0] == "call" and "callee" in d[2] and re.search(r"std::path::Path::join$|PathBuf::join$", callee(d[2]))]
+        okj = False
+        if len(joins) == 1:
+            jt = joins[0][2]
+            sl = flow.backward_slice(W, op_place(jt["args"][1])) if op_place(jt["args"][1]) else {"consts": [], "calls": set()}
+            sfx = [c.get("str") for c in sl["consts"] if isinstance(c, dict) and "str" in c]
+            okj = any(c.endswith("LocalBackend::filename") for c in sl["calls"]) and bool(sfx) and all(re.search(r"[^0-9a-fA-F]", x) for x in sfx)
+        rep.check("C20.b", "temp-name-last-component", okj, where=where(W, hs[0]),
+                  what="the temporary file's own name (last path component) is <final name> + a non-hex suffix: no listing can accept it, wherever the walk finds it" if okj else
+                       "the temporary file's own name is not <final name> + non-hex suffix (e.g. it lives in a sub-directory under a valid id name): an interrupted write leaves a LISTED partial file")
+        # every successful return of write_bytes has published the file
+        cut = ok_cut(W, rs[0])[1]
+        okret = [bi for bi, blk in enumerate(W.blocks) for s in blk["s"] if s[0] == "=" and s[1] == [0] and s[2][0] == "agg" and s[2][1][0] == "adt" and s[2][1][2] == "Ok"]
+        reach = W.reachable_from(0, cut_edges=cut)
+        rep.check("C20.a", "write_bytes/ok-only-after-rename", bool(okret) and not any(b in reach for b in okret), where=W.loc(),
+                  what="write_bytes returns Ok only after the rename succeeded (no shortcut that skips writing)" if okret and not any(b in reach for b in okret) else
+                       "write_bytes can return Ok WITHOUT writing and renaming (e.g. an 'already exists' shortcut): the stored bytes may differ from what was written")
+    # ---- C20.d the reader feeding io::copy never reports end-of-data early -----------------------------------
+    BR = prog.find1(r"^<rustic_core::backend::BytesListReader as std::io::Read>::read$")
+    inner = [(bb, t) for bb, t in BR.calls() if "callee" in t and re.search(r"std::io::Read>::read$|std::io::Read::read$", callee(t) + " " + callee_decl(t)) and "BytesListReader" not in callee(t)]
+    rep.require("C20.d", "inner-reads", len(inner) >= 1, where=BR.loc(), what=f"BytesListReader::read reads from the current chunk ({len(inner)} site(s))")
+    for i, (bb, t) in enumerate(inner, 1):
+        d = t["dest"][0]
+        if t["dest"] == [0]:
+            okz = False
+        else:
+            aliases, _, _ = flow.forward_aliases(BR, d)
+            # edges that prove 'not Ok(0)': discriminant(result) == Err, or payload != 0
+            cut = []
+            for sw in range(len(BR.blocks)):
+                tt = BR.term(sw)
+                if tt["k"] != "switch":
+                    continue
+                e = flow.expr_of(BR, tt["discr"])
+                if e[0] == "discr" and op_local(tt["discr"]) is not None:
+                    # which local is discriminated?
+                    for s_ in BR.blocks[sw]["s"]:
+                        if s_[0] == "=" and s_[1] == [op_local(tt["discr"])] and s_[2][0] == "discr" and s_[2][1][0] in aliases:
+                            okt = [x for v, x in tt["targets"] if v == "0"]
+                            cut += [(sw, x) for x in BR.succ(sw) if not okt or x != okt[0]]
+                p = op_place(tt["discr"])
+                if p and p[0] in aliases and any(isinstance(el, list) and el[0] == "d" and el[1] == "Ok" for el in p[1:]):
+                    zero = [x for v, x in tt["targets"] if v == "0"]
+                    if zero:
+                        cut += [(sw, x) for x in BR.succ(sw) if x != zero[0]]
+                if e[0] == "proj" and e[1][0] == "call" and e[1][3] == bb and "Ok" in e[3]:
+                    zero = [x for v, x in tt["targets"] if v == "0"]
+                    if zero:
+                        cut += [(sw, x) for x in BR.succ(sw) if x != zero[0]]
+            assigns = [bi for bi, blk in enumerate(BR.blocks) for s_ in blk["s"] if s_[0] == "=" and s_[1] == [0] and s_[2][0] == "use" and op_local(s_[2][1]) in aliases]
+            reach = BR.reachable_from(t["to"], cut_edges=cut) if t.get("to") is not None else set()
+            okz = not any(a in reach for a in assigns)
+        rep.check("C20.d", f"no-early-eof/{i}", okz, where=where(BR, bb),
+                  what="a zero-length read of the current chunk is never returned while further chunks remain (empty chunks are skipped)" if okz else
+                       "the result of reading a chunk is returned unchecked: an empty chunk makes the reader report end-of-data early, and the pre-sized file is published with zeros")
     # ---- C20.b listing filters -----------------------------------------------------------------------
     for be, paths in (("local", [LB + "ReadBackend>::list", LB + "ReadBackend>::list_with_size"]),
                       ("opendal", ["<rustic_backend::opendal::OpenDALBackend as rustic_core::backend::ReadBackend>::list", "<rustic_backend::opendal::OpenDALBackend as rustic_core::backend::ReadBackend>::list_with_size"])):
